@@ -272,7 +272,7 @@ def main(tier):
     for r in out:
         by.setdefault(r['tid'], []).append(r)
     ntrans = 0
-    for r in common.pool_map(lockstep, sorted(by.items()), chunk=4, per_case=600):
+    for r in common.pool_map(lockstep, sorted(by.items()), chunk=4, per_case=90 if tier == 'quick' else 600):
         if '_crash' in r:
             raise tlc.TLCFailure('harness crash: %s' % repr(r)[:1500])
         if '_timeout' in r:
